@@ -105,3 +105,8 @@ Theorem C12_conc_always_drains :
     fixed cf ->
     exists es' : list ev, runs_only es' /\ quiescent (fst (crun cf (cstate_after cf es) es')).
 Proof. exact conc_always_drains. Qed.
+
+
+Theorem C12_source_refusal_order :
+  conc_source_refusals = model_refusals.
+Proof. exact source_refusal_order. Qed.
